@@ -164,7 +164,28 @@ fn gen(t: &mut Tape, tier: Tier) -> Scenario {
     let (mut input, cuts, mut flags, note);
     let mut longest = (0usize, 0usize);
     let mut hl_used = 13usize;
-    if kind == 9 {
+    if kind == 9 && t.below(2) == 0 {
+        // a well-formed header followed by a constant-byte payload: with zeros the
+        // code register stays 0 at every symbol boundary (the state in which a
+        // marker-less stream may legitimately end), whatever the cut position
+        opts.mode = t.below(3);
+        let props = gen::draw_props(t, false);
+        let (dict_hdr, _) = gen::draw_dict_header(t);
+        let size_field = match t.below(4) {
+            0 => t.below(300),
+            _ => u64::MAX,
+        };
+        input = crate::refmodel::container::lzma_header(props, dict_hdr, if opts.mode == 2 { None } else { Some(size_field) });
+        if opts.mode != 0 && t.below(2) == 0 {
+            opts.provided = Some(t.below(300));
+        }
+        let n = t.range(0, 300) as usize;
+        let b = [0u8, 0, 0, 0xFF, 0x55][t.below(5) as usize];
+        input.extend(std::iter::repeat(b).take(n));
+        cuts = Vec::new();
+        flags = 0;
+        note = format!("header lc={} lp={} pb={} + {} bytes of 0x{:02x}", props.lc, props.lp, props.pb, n, b);
+    } else if kind == 9 {
         // arbitrary bytes
         let n = t.range(1, 80) as usize;
         input = gen::draw_bytes(t, n);
@@ -439,7 +460,7 @@ fn gen_with_enum(t: &mut Tape, tier: Tier) -> Scenario {
 pub static C05: SimpleProp = SimpleProp {
     id: "C05",
     level: "exploration",
-    rule: "one evaluation = one history: a byte string (valid stream of any shape incl. adversarially trained 9-12-byte symbols; truncated, bit-flipped, spliced, extended; random bytes) x decode option (3 modes, supplied size true/±1/0/none, memlimit) x a composition into write calls (single bytes, fixed k, random, sizes around 20, cuts placed inside the header / the 5-byte preamble / the longest symbol from the reference trace; empty writes, flush and get_output interleaved) then finish; the Stream verdict and bytes must equal lzma_decompress_with_options on the concatenation. For a sample of inputs <= 160 bytes every 1-cut and every 2-cut composition is enumerated (thorough: also every 3-cut composition of inputs <= 44 bytes); for a third of the adversarial streams every cut inside the longest symbol is scanned. Non-trivial = history has >= 2 write calls; distinct by scenario hash",
+    rule: "one evaluation = one history: a byte string (valid stream of any shape incl. adversarially trained 9-12-byte symbols; truncated, bit-flipped, spliced, extended; random bytes; a valid header followed by a constant-byte payload) x decode option (3 modes, supplied size true/±1/0/none, memlimit) x a composition into write calls (single bytes, fixed k, random, sizes around 20, cuts placed inside the header / the 5-byte preamble / the longest symbol from the reference trace; empty writes, flush and get_output interleaved) then finish; the Stream verdict and bytes must equal lzma_decompress_with_options on the concatenation. For a sample of inputs <= 160 bytes every 1-cut and every 2-cut composition is enumerated (thorough: also every 3-cut composition of inputs <= 44 bytes); for a third of the adversarial streams every cut inside the longest symbol is scanned. Non-trivial = history has >= 2 write calls; distinct by scenario hash",
     runs_quick: 120_000,
     runs_thorough: 8_000_000,
     both_profiles: false,
